@@ -80,6 +80,8 @@ pub struct Interp<W: Write> {
     pub case_id: Value,
     /// partial results that survive an unwinding operation (call lists)
     pub scratch: Vec<Value>,
+    /// live-object counters at the start of the current case
+    pub live0: (i64, i64),
 }
 
 fn s<'a>(op: &'a Value, f: &str) -> &'a str {
@@ -243,7 +245,7 @@ fn run<T: QApi>(q: &mut T, op: &Value, cx: &mut Ctx, ev: &mut Map<String, Value>
         }
         "peek_mut" | "peek_min_mut" | "peek_max_mut" => {
             let end = end_of(name);
-            let pk = q.peek(end).map(|x| x.y());
+            let pk = unfueled(|| q.peek(end).map(|x| x.y()));
             ev.insert("pk".into(), opt_el(pk));
             let newpay = cx.fresh();
             CMPS.with(|c| c.set(0));
@@ -261,7 +263,7 @@ fn run<T: QApi>(q: &mut T, op: &Value, cx: &mut Ctx, ev: &mut Map<String, Value>
         }
         "pop" | "pop_min" | "pop_max" => {
             let end = end_of(name);
-            let pk = q.peek(end).map(|x| x.y());
+            let pk = unfueled(|| q.peek(end).map(|x| x.y()));
             ev.insert("pk".into(), opt_el(pk));
             CMPS.with(|c| c.set(0));
             let ret = q.pop(end).map(|x| x.y());
@@ -269,7 +271,7 @@ fn run<T: QApi>(q: &mut T, op: &Value, cx: &mut Ctx, ev: &mut Map<String, Value>
         }
         "pop_if" | "pop_min_if" | "pop_max_if" => {
             let end = end_of(name);
-            let pk = q.peek(end).map(|x| x.y());
+            let pk = unfueled(|| q.peek(end).map(|x| x.y()));
             ev.insert("pk".into(), opt_el(pk));
             let yes = b(op, "yes");
             let set = op.get("set").and_then(|v| v.as_array()).and_then(|a| a.first()).and_then(|v| v.as_i64());
@@ -609,7 +611,7 @@ pub fn proto_calls(p: &mut dyn Proto, calls: &[i64], out: &mut Vec<Value>) {
 
 impl<W: Write> Interp<W> {
     pub fn new(out: W) -> Self {
-        Interp { qs: BTreeMap::new(), out, ctr: 0, universe: vec![], hasher: "std".into(), kind: "pq".into(), want_snap: true, nevents: 0, case_id: json!(0), scratch: vec![] }
+        Interp { qs: BTreeMap::new(), out, ctr: 0, universe: vec![], hasher: "std".into(), kind: "pq".into(), want_snap: true, nevents: 0, case_id: json!(0), scratch: vec![], live0: (0, 0) }
     }
 
     fn emit(&mut self, ev: Map<String, Value>) {
@@ -684,8 +686,8 @@ impl<W: Write> Interp<W> {
         }
     }
 
-    /// execute one scripted operation, writing its event(s)
-    pub fn exec(&mut self, op: &Value) {
+    /// execute one scripted operation, writing its event(s); returns (panicked, injected faults)
+    pub fn exec(&mut self, op: &Value) -> (bool, u64) {
         let name = s(op, "op").to_string();
         let qid = n(op, "q");
         let mut ev = self.base(op, qid);
@@ -973,8 +975,8 @@ impl<W: Write> Interp<W> {
             }
             "balance" => {
                 // live-object counters (meaningful once every queue has been dropped)
-                ev.insert("live_items".into(), json!(LIVE_ITEMS.with(|c| c.get())));
-                ev.insert("live_pris".into(), json!(LIVE_PRIS.with(|c| c.get())));
+                ev.insert("live_items".into(), json!(LIVE_ITEMS.with(|c| c.get()) - self.live0.0));
+                ev.insert("live_pris".into(), json!(LIVE_PRIS.with(|c| c.get()) - self.live0.1));
                 ev.insert("queues".into(), json!(self.qs.len()));
             }
             _ => {
@@ -1015,10 +1017,57 @@ impl<W: Write> Interp<W> {
             }
         }
         let cm = CMPS.with(|c| c.get());
-        ev.insert("injected".into(), json!(INJECTED.with(|c| c.get())));
+        let inj = INJECTED.with(|c| c.get());
+        ev.insert("injected".into(), json!(inj));
         clear_fuel();
         CMPS.with(|c| c.set(cm));
+        let p = panicked.is_some();
         self.finish(ev, qid, panicked);
+        (p, inj)
+    }
+
+    /// fault sweep (engine D): for every operation and callback class, inject a panic at callback number
+    /// k = 0, 1, ... until the operation completes without reaching the crash point; after every caught
+    /// panic run each continuation on a clone of the damaged queue, then drop everything.
+    fn run_sweep(&mut self, sweep: &Value) {
+        let empty = vec![];
+        let ops = sweep.get("ops").and_then(|v| v.as_array()).unwrap_or(&empty).clone();
+        let classes: Vec<String> = sweep.get("classes").and_then(|v| v.as_array()).map(|a| a.iter().map(|x| x.as_str().unwrap_or("").to_string()).collect()).unwrap_or_default();
+        let conts = sweep.get("conts").and_then(|v| v.as_array()).unwrap_or(&empty).clone();
+        let maxk = sweep.get("maxk").and_then(|v| v.as_u64()).unwrap_or(40);
+        for op in ops.iter() {
+            for cls in classes.iter() {
+                for k in 0..=maxk {
+                    self.exec(&json!({"op": "clone", "q": 1, "src": 0}));
+                    let mut fop = op.clone();
+                    fop["q"] = json!(1);
+                    fop["fault"] = json!({ cls.as_str(): k });
+                    let (_p, inj) = self.exec(&fop);
+                    if inj == 0 {
+                        self.exec(&json!({"op": "drop", "q": 1}));
+                        break;
+                    }
+                    if !self.qs.contains_key(&1) {
+                        continue; // the operation consumed the queue (convert): nothing left to continue on
+                    }
+                    for cont in conts.iter() {
+                        let (cp, _) = self.exec(&json!({"op": "clone", "q": 2, "src": 1}));
+                        if !cp {
+                            for c in cont.as_array().unwrap_or(&empty) {
+                                if !self.qs.contains_key(&2) {
+                                    break; // consumed by a panicking conversion
+                                }
+                                let mut c = c.clone();
+                                c["q"] = json!(2);
+                                self.exec(&c);
+                            }
+                            self.exec(&json!({"op": "drop", "q": 2}));
+                        }
+                    }
+                    self.exec(&json!({"op": "drop", "q": 1}));
+                }
+            }
+        }
     }
 
     fn witness(&mut self, qid: i64, wit: &[String]) {
@@ -1052,6 +1101,7 @@ impl<W: Write> Interp<W> {
         // everything from the previous case is dropped
         let old = std::mem::take(&mut self.qs);
         drop(old);
+        self.live0 = (LIVE_ITEMS.with(|c| c.get()), LIVE_PRIS.with(|c| c.get()));
         self.kind = if s(case, "kind").is_empty() { "pq".into() } else { s(case, "kind").into() };
         self.hasher = if s(case, "hasher").is_empty() { "std".into() } else { s(case, "hasher").into() };
         self.universe = case.get("universe").and_then(|v| v.as_array()).map(|a| a.iter().map(|x| x.as_str().unwrap_or("").to_string()).collect()).unwrap_or_default();
@@ -1110,6 +1160,14 @@ impl<W: Write> Interp<W> {
             if !probes.is_empty() {
                 self.witness(0, &wit);
             }
+        }
+        if let Some(sw) = case.get("sweep") {
+            self.run_sweep(sw);
+            let ids: Vec<i64> = self.qs.keys().cloned().collect();
+            for id in ids {
+                self.exec(&json!({"op": "drop", "q": id}));
+            }
+            self.exec(&json!({"op": "balance", "q": 0}));
         }
     }
 }
